@@ -169,10 +169,10 @@ fn parse_lines(path: &str) {
     let lines: Vec<String> = serde_json::from_str(&inp).expect("stdin must be a JSON array of strings");
     let mut results = Vec::new();
     // production identity: (nonterminal, index within nonterminal)
-    let prod_id = |p: &r::Production| -> Value {
+    let prod_id = |p: &r::Production, pos: usize| -> Value {
         let data = &g.nonterminals[&p.nonterminal];
         let k = data.productions.iter().position(|q| std::ptr::eq(q, p) || q == p).unwrap_or(usize::MAX);
-        json!([format!("{}", p.nonterminal), k, p.action.index()])
+        json!([format!("{}", p.nonterminal), k, p.action.index(), pos, p.symbols.len()])
     };
     for line in lines.iter() {
         let mut toks: Vec<(TerminalString, String, usize, usize)> = Vec::new();
@@ -216,7 +216,7 @@ fn parse_lines(path: &str) {
             let mut reduced = false;
             for (set, prod) in st.reductions.iter() {
                 if set.contains(&la) {
-                    reds.push(prod_id(prod));
+                    reds.push(prod_id(prod, pos));
                     let n = prod.symbols.len();
                     for _ in 0..n {
                         stack.pop();
